@@ -203,10 +203,8 @@ func (e *Exec) doAlloc(fr *Frame, x *ssa.Alloc, st *State) {
 	ref := e.alloc(st)
 	switch u := pt.Underlying().(type) {
 	case *types.Struct:
-		for i := 0; i < u.NumFields(); i++ {
-			h, hs, ft := e.fieldHeap(pt, i)
-			e.write1(st, h, hs, ref, e.zeroOf(ft))
-		}
+		_ = u
+		e.zeroStructAt(pt, ref, st)
 		fr.vals[x] = Val{T: ref, S: SInt, Ty: x.Type()}
 	case *types.Array:
 		h, hs := e.elemHeap(u.Elem())
@@ -286,26 +284,7 @@ func (e *Exec) doUnOp(fr *Frame, x *ssa.UnOp, st *State, g string) {
 			// load of a whole struct through a reference: token with field projections
 			ref := xv.T
 			e.safety(fr, x, g, Not(Eq(ref, "0")), "nil-deref")
-			su := pt.Underlying().(*types.Struct)
-			// struct values are tokens built by an (uninterpreted) constructor from their field values, so that
-			// two loads of equal fields give equal values (struct equality is field-wise)
-			var fsorts []Sort
-			var fterms []string
-			for i := 0; i < su.NumFields(); i++ {
-				h, hs, ft := e.fieldHeap(pt, i)
-				fsorts = append(fsorts, e.sortOf(ft))
-				fterms = append(fterms, e.read1(e.get(st, h, hs), ref))
-			}
-			mk := e.Out.DeclareFun("mk$"+e.typeName(pt), fsorts, SInt)
-			tok := e.Out.Define(fr.prefix+x.Name(), SInt, App(mk, fterms...))
-			if su.NumFields() == 0 {
-				tok = e.Out.Define(fr.prefix+x.Name(), SInt, "0")
-			}
-			for i := 0; i < su.NumFields(); i++ {
-				_, _, ft := e.fieldHeap(pt, i)
-				proj := e.Out.DeclareFun("SF$"+e.typeName(pt)+"."+su.Field(i).Name(), []Sort{SInt}, e.sortOf(ft))
-				e.Out.Assert(Eq(App(proj, tok), fterms[i]))
-			}
+			tok := e.Out.Define(fr.prefix+x.Name(), SInt, e.loadStruct(pt, ref, st))
 			fr.vals[x] = Val{T: tok, S: SInt, Ty: x.Type()}
 			return
 		}
@@ -639,25 +618,8 @@ func (e *Exec) doStore(fr *Frame, x *ssa.Store, st *State, g string) {
 	av := e.val(fr, x.Addr)
 	v := e.val(fr, x.Val)
 	pt := x.Addr.Type().Underlying().(*types.Pointer).Elem()
-	if su, isStruct := pt.Underlying().(*types.Struct); isStruct && av.Addr == nil {
-		// store of a whole struct through a reference (and: the token is the constructor applied to its fields)
-		if su.NumFields() > 0 {
-			var fsorts []Sort
-			var projs []string
-			for i := 0; i < su.NumFields(); i++ {
-				_, _, ft := e.fieldHeap(pt, i)
-				fsorts = append(fsorts, e.sortOf(ft))
-				proj := e.Out.DeclareFun("SF$"+e.typeName(pt)+"."+su.Field(i).Name(), []Sort{SInt}, e.sortOf(ft))
-				projs = append(projs, App(proj, v.T))
-			}
-			mk := e.Out.DeclareFun("mk$"+e.typeName(pt), fsorts, SInt)
-			e.Out.Assert(Eq(App(mk, projs...), v.T))
-		}
-		for i := 0; i < su.NumFields(); i++ {
-			h, hs, ft := e.fieldHeap(pt, i)
-			proj := e.Out.DeclareFun("SF$"+e.typeName(pt)+"."+su.Field(i).Name(), []Sort{SInt}, e.sortOf(ft))
-			e.write1(st, h, hs, av.T, App(proj, v.T))
-		}
+	if _, isStruct := pt.Underlying().(*types.Struct); isStruct && av.Addr == nil {
+		e.storeStruct(pt, av.T, v.T, st)
 		return
 	}
 	a := e.ptrAddr(av, x.Addr.Type())
